@@ -140,6 +140,11 @@ impl Http3Codec {
                 self.notify_writable_streams(streams);
                 Ok(None)
             }
+            QuicSocketEvent::Finished(stream_id) => {
+                // the response direction stays open until the response has been sent
+                let _ = self.on_stream_shutdown(stream_id, Some(quiche::Shutdown::Read));
+                Ok(None)
+            }
             QuicSocketEvent::Close(stream_id) => {
                 let _ = self.on_stream_shutdown(stream_id, None);
                 Ok(None)
